@@ -16,14 +16,21 @@ _PATH_EVENTS = {
 }
 
 
-def _abs(p):
+# position of the dir_fd argument in the audit event (shutil.rmtree walks the tree with directory descriptors)
+_DIRFD = {"os.remove": 1, "os.rmdir": 1, "os.mkdir": 2}
+
+
+def _abs(p, dir_fd=None):
     try:
         if isinstance(p, bytes):
             p = p.decode()
         if isinstance(p, int):
             return None
         p = os.fspath(p)
-        return os.path.realpath(os.path.join(os.getcwd(), p))
+        base = os.getcwd()
+        if isinstance(dir_fd, int) and dir_fd >= 0 and not os.path.isabs(p):
+            base = os.readlink("/proc/self/fd/%d" % dir_fd)
+        return os.path.realpath(os.path.join(base, p))
     except Exception:
         return None
 
@@ -48,9 +55,11 @@ def _hook(event, args):
                 if a is not None and not a.startswith(("/dev/null", "/dev/urandom", "/dev/tty", "/proc/", "/usr/", "/venv/", "/opt/", "/etc/", "/sys/")):
                     _REC.append(("open_r", a))
         elif event in _PATH_EVENTS:
+            k = _DIRFD.get(event)
+            dfd = args[k] if k is not None and k < len(args) else None
             for i in _PATH_EVENTS[event]:
                 if i < len(args):
-                    a = _abs(args[i])
+                    a = _abs(args[i], dfd)
                     if a is not None:
                         _REC.append((event, a))
     except Exception:
